@@ -35,6 +35,10 @@ Fixpoint zip_with_index {A} (n : nat) (l : list A) : list (nat * A) :=
   match l with [] => [] | x :: t => (n, x) :: zip_with_index (S n) t end.
 
 
-Record dstate : Type := mkDS { ds_schemas : list (string * schema) }.
-Definition ds_init : dstate := mkDS [].
+Record dstate : Type := mkDS {
+  ds_schemas : list (string * schema);
+  ds_prop : string;                              (* the property under check *)
+  ds_confs : list (string * (sexp * sexp * sexp)) (* run configurations, undecoded *)
+}.
+Definition ds_init : dstate := mkDS [] "" [].
 Definition ds_schema (st : dstate) (id : string) : option schema := assoc_get id (ds_schemas st).
